@@ -31,7 +31,9 @@ import (
 	"runtime/debug"
 	"strings"
 	"sync"
+	"sync/atomic"
 	"testing/iotest"
+	"time"
 
 	"github.com/brutella/hc/util"
 
@@ -505,7 +507,12 @@ func (c *ctx) runContainer(ops []op, origin string) []byte {
 	c.dist("reader_mode", mode)
 	var back util.Container
 	var perr error
-	if panicked, text := vf.Recover(func() { back, perr = util.NewTLV8ContainerFromReader(mkReader(mode, wire)) }); panicked {
+	hung, panicked, text := vf.RecoverWithin(parseWatchdog, func() { back, perr = util.NewTLV8ContainerFromReader(mkReader(mode, wire)) })
+	if hung {
+		c.hung("reparse:does-not-return", fmt.Sprintf("parsing hc's own serialisation (%d bytes, %s reader) did not return within %s", len(wire), mode, parseWatchdog), witness)
+		return nil
+	}
+	if panicked {
 		c.violate("reparse:panic:"+vf.PanicSite(text, hcFragment), "parsing hc's own serialisation panicked: "+firstLine(text), witness)
 		return nil
 	}
@@ -605,7 +612,12 @@ func (c *ctx) runParse(input []byte, class string) {
 	}
 	var cont util.Container
 	var err error
-	if panicked, text := vf.Recover(func() { cont, err = util.NewTLV8ContainerFromReader(mkReader(mode, input)) }); panicked {
+	hung, panicked, text := vf.RecoverWithin(parseWatchdog, func() { cont, err = util.NewTLV8ContainerFromReader(mkReader(mode, input)) })
+	if hung {
+		c.hung("parse:does-not-return", fmt.Sprintf("NewTLV8ContainerFromReader did not return within %s on %d input bytes (%s reader): it neither succeeds nor returns an error", parseWatchdog, len(input), mode), witness)
+		return
+	}
+	if panicked {
 		c.violate("parse:panic:"+vf.PanicSite(text, hcFragment), fmt.Sprintf("NewTLV8ContainerFromReader panicked on %d input bytes: %s", len(input), firstLine(text)), witness)
 		return
 	}
@@ -1169,4 +1181,18 @@ func main() {
 	r.Floor("parse_successes", int(r.Counter("parse_successes")), 1000)
 	r.Floor("parse_failures", int(r.Counter("parse_failures")), 1000)
 	r.Finish()
+}
+
+// parseWatchdog bounds one parser call: microseconds are expected, so 20 s without returning is non-termination.
+const parseWatchdog = 20 * time.Second
+
+var hangs int32
+
+// hung records a non-returning call; after a few of them the process ends (every hung goroutine keeps spinning).
+func (c *ctx) hung(sig, what string, witness func() interface{}) {
+	c.violate(sig, what, witness)
+	if atomic.AddInt32(&hangs, 1) >= 3 {
+		c.flush()
+		c.r.Finish()
+	}
 }
